@@ -218,7 +218,7 @@ func genEvidenceWorld(rng *core.Rng, i int) world.WorldSpec {
 }
 
 func (StoreVerifyEngine) Gen(prop, tier string, seed uint64, yield func(c any) bool) {
-	n := 700
+	n := 480
 	if tier == "thorough" {
 		n = 30000
 	}
